@@ -48,6 +48,10 @@ def main():
     seed = int(os.environ.get("VERIF_SEED", "0") or 0)
     t0 = time.time()
     core.ensure_dirs()
+    if os.path.realpath(args.repo) != "/repo":
+        # a scratch copy under test (self-validation with mutants): never touch the committed evidence
+        core.EVID = os.path.join(core.WORK, "evidence_alt")
+        os.makedirs(core.EVID, exist_ok=True)
     pid = args.prop
     mod = importlib.import_module("props." + pid)
     rng = random.Random("%s/%s/%d" % (pid, args.tier, seed))
